@@ -31,7 +31,7 @@ def observe(sess, hist, op, exc, valid, reason, pre, acc):
         p = R.parse_file(data)
     except R.LayoutError as e:
         raise core.Violation("unparsable", kcommon.sig(PROP, "unparsable", op, cfg), None, str(e))
-    where = f"after {[kdriver.op_str(o) for o in hist]}"
+    where = f"after {[str(o) if o[0] == 'bad' else kdriver.op_str(o) for o in hist]}"
     live = [e for e in p["entries"] if e["type"] != 0]
     types = [e["type"] for e in live]
     if sorted(types) != sorted(model.live):
@@ -44,7 +44,7 @@ def observe(sess, hist, op, exc, valid, reason, pre, acc):
         if e["type"] == 0:
             continue
         r = model.live[e["type"]]
-        touched = op is not None and len(op) > 1 and op[1] == e["type"]
+        touched = op is not None and len(op) > 1 and (op[2] if op[0] == "bad" else op[1]) == e["type"]
         tag = "touched" if touched else "bystander"
         got = R.payload(data, e)
         if got != r.payload:
@@ -78,7 +78,7 @@ def observe(sess, hist, op, exc, valid, reason, pre, acc):
 _shard = kcommon.make_run(__name__, "observe")
 
 
-_chain = kcommon.make_chain_run(__name__, "observe")
+_chain = kcommon.make_chain_run(__name__, "observe", faults=True)
 
 
 def run(tier):
